@@ -23,6 +23,9 @@ type ContentHasher func(*types.Stat) (hash.Hash, error)
 
 func getWalkerFn(root string) walkerFn {
 	return func(ctx context.Context, pathC chan<- *currentPath) error {
+		// first names of hard-link groups that turned out to be names of a
+		// directory the writer has replaced meanwhile -> the real first name
+		relinked := map[string]string{}
 		return errors.Wrap(Walk(ctx, root, nil, func(path string, f os.FileInfo, err error) error {
 			if err != nil {
 				if underReplacedDir(root, path) {
@@ -34,6 +37,21 @@ func getWalkerFn(root string) walkerFn {
 			stat, ok := f.Sys().(*types.Stat)
 			if !ok {
 				return errors.Errorf("%T invalid file without stat information", f.Sys())
+			}
+
+			if stat.Linkname != "" && os.FileMode(stat.Mode)&os.ModeSymlink == 0 {
+				// the names of a directory that has become a symlink
+				// meanwhile may have resolved through the link (no error:
+				// see underReplacedDir) to entries of another directory,
+				// whose inodes were then remembered under those names. Such a
+				// name is no entry of the destination: the first real name of
+				// the group takes its place
+				if first, ok := relinked[stat.Linkname]; ok {
+					stat.Linkname = first
+				} else if underReplacedDir(root, stat.Linkname) {
+					relinked[stat.Linkname] = path
+					stat.Linkname = ""
+				}
 			}
 
 			if stat.Size == 0 && os.FileMode(stat.Mode).IsRegular() {
